@@ -756,18 +756,18 @@ class OnionWorld:
         import struct
         from ipv8.messaging.anonymization.payload import CreatePayload
         ov = self.ov[self.names[0]]
-        best = None
+        found = []
         for w in reversed(self.net.wire):
             dd = w.data
             if len(dd) > 30 and dd[22] == 0 and struct.unpack_from("!I", dd, 23)[0] == cid_real and dd[27] != 0 and dd[29] == 2 \
                     and w.dst == created_dg.src:
                 pl, _ = ov.serializer.unpack_serializable(CreatePayload, struct.pack("!I", cid_real) + dd[30:])
-                if (identifier is None or pl.identifier == identifier) and w.src == created_dg.dst:
-                    return pl.key
-                if best is None and (identifier is None or pl.identifier == identifier):
-                    best = pl.key
-        if best is not None:
-            return best
+                found.append((pl.identifier == identifier, w.src == created_dg.dst, pl.key))
+        # (the answer's identifier may itself have been rewritten by an earlier manipulation)
+        for want in ((True, True), (False, True), (True, False), (False, False)):
+            for ident_ok, src_ok, key in found:
+                if (ident_ok, src_ok) == want:
+                    return key
         raise KeyError("no create seen for this created")
 
     # -- timers
